@@ -400,13 +400,19 @@ impl Engine {
                 dec_bundle(r);
                 return if opc == 2 { 1 } else { 0 };
             }
-            4 => {
+            4 | 24 => {
                 self.href(r);
+                if opc == 24 {
+                    r.next();
+                }
                 let k = r.next() as usize;
                 r.take(k);
             }
-            5 => {
+            5 | 25 => {
                 self.href(r);
+                if opc == 25 {
+                    r.next();
+                }
                 let k = r.next() as usize;
                 r.take(k);
                 dec_bundle(r);
@@ -664,17 +670,19 @@ impl Engine {
                     }
                 }
             }
-            4 | 5 => {
+            4 | 5 | 24 | 25 => {
+                // 24 / 25: remove / exchange with S a derived Bundle struct (its kind follows the handle)
                 let h = self.href(r);
+                let skind = if opc >= 24 { r.next() } else { 0 };
                 let k = r.next() as usize;
                 let ts = r.take(k);
-                let b = if opc == 5 { Some(dec_bundle(r)) } else { None };
+                let b = if opc == 5 || opc == 25 { Some(dec_bundle(r)) } else { None };
                 if let Some(b) = &b {
                     self.ledger.give(&b.items, &sizes, out);
                 }
                 self.shadow[w].materialise();
                 let world = self.worlds[w].as_mut().unwrap();
-                let one = ts.len() == 1 && h.id() % 2 == 1;
+                let one = ts.len() == 1 && h.id() % 2 == 1 && skind == 0;
                 let res = catch_unwind(AssertUnwindSafe(|| match &b {
                     None if one => {
                         // remove_one::<T> = remove::<(T,)>
@@ -707,6 +715,8 @@ impl Engine {
                         });
                         res
                     }
+                    None if skind >= 10 => crate::derived::dispatch_bundle(skind, &ts, RemoveV(world, h)).expect("derived struct"),
+                    Some(b) if skind >= 10 => crate::derived::dispatch_bundle(skind, &ts, ExOuter(world, h, b)).expect("derived struct").expect("T must be a builder bundle"),
                     None => dispatch_tuple(&ts, RemoveV(world, h)).expect("tuple type not in catalogue"),
                     Some(b) => dispatch_exs(&ts, ExOuter(world, h, b)).expect("S not in catalogue").expect("T not in catalogue"),
                 }));
